@@ -9,6 +9,7 @@ import FontVerif.Model.SubsetCmap
 import FontVerif.Lemmas.SubsetCmap12
 import FontVerif.Lemmas.SubsetCmap4
 import FontVerif.Lemmas.SubsetCmap4Top
+import FontVerif.Lemmas.SubsetCmap4Total
 import FontVerif.Lemmas.SubsetCmapTable
 import FontVerif.Lemmas.SubsetCmapUvs
 set_option linter.unusedVariables false
@@ -111,6 +112,16 @@ theorem fmt4_lookup_unlisted (l : Mapping) (hd : InDomain l) (hb : ∀ p ∈ l, 
     rcases (fmt4_lookup l hd hb hne t ht c v).1 hq with h1 | ⟨h1, _⟩
     · exact absurd h1 (hno v)
     · exact absurd h1 hc
+
+/-- SUCCESS + LOOKUP together, for the implemented writer: for every strictly ascending list of at most
+6551 BMP pairs (10·n + 24 ≤ 65535: what a 16-bit subtable length always holds) without U+FFFF and with
+glyph ids in 1..=0xFFFE, `Cmap4::serialize` neither panics (no `u16` overflow in `to_ranges`) nor
+fails, and the subtable answers exactly the list (plus glyph 0 for U+FFFF). -/
+theorem fmt4_roundtrip (l : Mapping) (hd : InDomain l) (hb : ∀ p ∈ l, p.1 ≤ 0xFFFF) (hg : ∀ p ∈ l, p.2 < 0xFFFF)
+    (hne : l ≠ []) (hlen : l.length ≤ 6551) :
+    ∃ t, build4 l = .ok t ∧ ∀ c v, map4 t c = some v ↔ (c, v) ∈ l ∨ (c = 0xFFFF ∧ v = 0) := by
+  obtain ⟨t, ht⟩ := build4_total l hd hb hg hne hlen
+  exact ⟨t, ht, fmt4_lookup l hd hb hne t ht⟩
 
 example : InDomain [(336, 15), (337, 16), (338, 7), (339, 8), (340, 17), (341, 18), (342, 9), (343, 10),
     (344, 11), (345, 12), (346, 13)] := ⟨by unfold Ascending; decide, by decide, by decide⟩
